@@ -354,15 +354,24 @@ def rule_sequencing(ctx):
         _, it, pat, obody = outer[0]
         lemma_ids = {p["id"] for p in pat_bindings(pat)}
         st = hq.stmts_of(obody)
-        inner_idx = [i for i, s in enumerate(st) if hq.stmt_expr(s) is not None and any(
-            True for l in hq.for_loops({"x": hq.stmt_expr(s)}) if any(x.endswith(".conjectures") for x in flow.places_in(flow.summ(l[1]))))]
+
+        def conj_passes(e):
+            """the passes over a lemma's conjectures inside e: `for c in ..conjectures..` loops and `..conjectures...map / for_each(|c| ..)` chains,
+            as (iterated expression, pattern nodes binding the element, body)"""
+            out = [(l[1], [l[2]], l[3]) for l in hq.for_loops({"x": e}) if any(x.endswith(".conjectures") for x in flow.places_in(flow.summ(l[1])))]
+            for c in walk(e):
+                if c.get("k") == "MethodCall" and c.get("method") in ("map", "for_each", "flat_map") and c.get("args") and strip(c["args"][0]).get("k") == "Closure" \
+                        and any(x.endswith(".conjectures") for x in flow.places_in(flow.summ(c["recv"]))):
+                    cl = strip(c["args"][0])
+                    out.append((c["recv"], cl["params"], cl["body"]))
+            return out
+        inner_idx = [i for i, s in enumerate(st) if hq.stmt_expr(s) is not None and conj_passes(hq.stmt_expr(s))]
         # the running list of axioms, by role: the local that every outline problem of this loop starts from (first add_annotated_formulas)
         ax_name = None
-        for l_ in hq.for_loops(obody):
-            for ch_ in tasks.problem_chains(l_[3] or {}):
-                adds_ = [a_[0] for m_, a_, _ in ch_["steps"] if m_ == "add_annotated_formulas"]
-                if adds_ and local_of(adds_[0]):
-                    ax_name = local_of(adds_[0])
+        for ch_ in tasks.problem_chains(obody):
+            adds_ = [a_[0] for m_, a_, _ in ch_["steps"] if m_ == "add_annotated_formulas"]
+            if adds_ and local_of(adds_[0]):
+                ax_name = local_of(adds_[0])
         app_idx = [i for i, s in enumerate(st) if hq.stmt_expr(s) is not None and [c for c in walk(hq.stmt_expr(s)) if c.get("k") == "MethodCall" and c["method"] in ("append", "extend", "push", "extend_from_slice")
                                                                                   and ax_name is not None and ax_name == (local_of(c["recv"]) or "") ]]
         problem_idx = [i for i, s in enumerate(st) if hq.calls(s, "Problem::with_name")]
@@ -378,13 +387,15 @@ def rule_sequencing(ctx):
             ctx.add("SEQ", d + ":append-own-consequences", src_ok and same, site, "what is appended are the consequences of the same lemma (not its conjectures)")
         # inner loop: problem = axioms.clone() + once(conjecture.clone())
         if len(inner_idx) == 1:
-            inner = [l for l in hq.for_loops({"x": hq.stmt_expr(st[inner_idx[0]])})][0]
-            conj_ids = {p["id"] for p in pat_bindings(inner[2])}
+            inner = conj_passes(hq.stmt_expr(st[inner_idx[0]]))[0]
+            inner = (None, inner[0], None, inner[2], inner[1])
+            conj_ids = {p["id"] for q in inner[4] for p in pat_bindings(q)}
             ch = tasks.problem_chains(inner[3])
             ok = len(ch) == 1
             if ok:
                 adds = [a[0] for m, a, _ in ch[0]["steps"] if m == "add_annotated_formulas"]
-                ok = len(adds) == 2 and ax_name is not None and local_of(adds[0]) == ax_name and (local_id_of(strip(adds[1])["args"][0]) if strip(adds[1]).get("k") == "Call" else None) in conj_ids
+                ok = len(adds) == 2 and ax_name is not None and local_of(adds[0]) == ax_name and strip(adds[1]).get("k") == "Call" and \
+                    {n_["res"]["id"] for n_ in walk(strip(adds[1])["args"][0]) if n_.get("k") == "Path" and n_.get("res", {}).get("r") == "local"} & conj_ids != set()
                 # nothing in the inner loop modifies axioms
                 muts = [c for c in walk(inner[3]) if c.get("k") == "MethodCall" and local_of(c["recv"]) == ax_name and c["method"] not in ("clone",)]
                 ok = ok and not muts
@@ -408,7 +419,7 @@ def rule_sequencing(ctx):
         except AnalysisGap:
             continue
         blocks = {bl["id"]: bl for bl in mir["blocks"]}
-        apps = [bl["id"] for bl in mir["blocks"] if bl["term"].get("t") == "Call" and (bl["term"].get("callee") or "").endswith("Vec::<T, A>::append")]
+        apps = [bl["id"] for bl in mir["blocks"] if bl["term"].get("t") == "Call" and (bl["term"].get("callee") or "").endswith(("Vec::<T, A>::append", "Extend::extend", "iter::Extend::extend"))]
         withname = {bl["id"] for bl in mir["blocks"] if bl["term"].get("t") == "Call" and (bl["term"].get("callee_res") or "").endswith("Problem::with_name")}
         nexts = {bl["id"] for bl in mir["blocks"] if bl["term"].get("t") == "Call" and (bl["term"].get("callee") or "").endswith("Iterator::next")
                  and bl["term"].get("line") in outer_lines}
